@@ -21,6 +21,8 @@ Streams (all from ctx.rng):
             one base circuit or holding a copy.  After every call: the clauses for the CURRENT circuit and
             device, equality with a fresh object, currency of the circuits / inputs / arguments handed to
             the callback, the model on the current data and on the cumulative program.
+  * "proj"  the projection steps of the MLE optimiser (`_tp_proj`, `_cp_proj`, `_cptp_proj`, one pgdb update) on exact
+            data against LW.Model.MLEProj and the clauses proved in LW/Properties/C16Proj.lean (see harness/mleproj.py);
   * "keep"  RETAINED RESULTS (see the section of that name): every value handed out by the three classes and by
             choi_from_unitary is kept - the very object plus a deep copy - and re-checked after every later step
             of a sequence over several objects of the same and of other classes and sizes (a directed corpus
@@ -41,6 +43,7 @@ from fractions import Fraction
 import numpy as np
 
 import circgen as cg
+import mleproj
 import lightworks as lw
 import tomo as tm
 from core import Ctx, ddmin, exc_class, frac_str
@@ -63,8 +66,10 @@ TRUSTED = [
     "hand-written model LW.Model.ProcTomo / Tomo tied to the code by this correspondence check",
     "numpy.linalg.pinv (contract: the unique solution of the invertible linear system), numpy.linalg.solve, "
     "eigh (also inside state_fidelity / process_fidelity since the repair F28; fidelity compared with tolerance 1e-6)",
-    "the projected-gradient optimiser of MLE is NOT modelled: its result is checked against the property's "
-    "bound (fidelity >= 0.99, positivity, trace preservation) on every generated case",
+    "MLE: the projection steps (_tp_proj, _cp_proj given eigh's output, the Dykstra loop, the pgdb update rule) are "
+    "modelled (LW.Model.MLEProj) and proved to return positive semi-definite / trace-preserving matrices; CONVERGENCE of "
+    "Dykstra's iteration and of the projected gradient descent is NOT modelled: the result is checked against the "
+    "property's bound (fidelity >= 0.99, positivity, trace preservation) on every generated case",
     "the implementation's Simulator as the source of noiseless outcome frequencies (C03/C04)",
     "driver JSON parser and harness comparison code",
 ]
@@ -1599,7 +1604,7 @@ KEEP_CORPUS = [
 
 def run_case(ctx: Ctx, case: dict) -> list[str]:
     return {"proc": run_proc, "data": run_data, "ref": run_ref, "init": run_init,
-            "hist": run_hist, "keep": run_keep}[case["stream"]](ctx, case)
+            "hist": run_hist, "keep": run_keep, "proj": mleproj.run_case}[case["stream"]](ctx, case)
 
 
 def report(ctx: Ctx, case: dict, probs: list[str]) -> None:
@@ -1712,6 +1717,8 @@ def run(ctx: Ctx) -> None:
         if probs:
             report(ctx, case, probs)
 
+    # the projection steps of the MLE optimiser against LW.Model.MLEProj (cheap, own random stream)
+    mleproj.run_stream(ctx, random.Random(f"C16-proj-{ctx.seed}"), ctx.n(160, 2000), report)
     # directed histories first (the nastiest shapes), then the older streams, then random histories
     for case in KEEP_CORPUS:
         if ctx.out_of_time():
